@@ -151,7 +151,7 @@ func genStream(rnd *hx.Rand, maxLines, maxLen int) string {
 			l = 0
 		}
 		for j := 0; j < l; j++ {
-			b.WriteByte("abcdefgh \t:%é"[rnd.Intn(13)])
+			b.WriteByte("abcdefgh \t:%é\r"[rnd.Intn(14)])
 		}
 		if i < n-1 || rnd.Chance(70) {
 			b.WriteByte('\n')
@@ -201,6 +201,10 @@ func streamMain(args []string) {
 	var gots []string
 	for i := 0; i < nA; i++ {
 		s := genStream(rnd, 8, 12)
+		if i%150 == 7 { // long lines: chunks far above any internal buffer size
+			s = genStream(rnd, 3, []int{4095, 4096, 4097, 32768, 70000}[rnd.Intn(5)]*2)
+			rep.Hist("A:long-lines")
+		}
 		aligned := rnd.Bool()
 		chunks := cutAt(rnd, s, aligned)
 		isErr := rnd.Bool()
@@ -279,7 +283,7 @@ func streamMain(args []string) {
 		var outS, errS strings.Builder
 		splitRisk := false
 		nw := rnd.Intn(6)
-		big := o.Thorough() && i%40 == 0
+		big := (o.Thorough() && i%40 == 0) || i == 3
 		for j := 0; j < nw; j++ {
 			s := genStream(rnd, 5, 20)
 			if big {
@@ -321,7 +325,7 @@ func streamMain(args []string) {
 			code = []int{1, 2, 3, 42, 127, 128, 254, 255}[rnd.Intn(8)]
 			steps = append(steps, "exit:"+strconv.Itoa(code))
 		default:
-			sig = []int{9, 15, 11}[rnd.Intn(3)]
+			sig = []int{9, 15, 2}[rnd.Intn(3)]
 			steps = append(steps, "sig:"+strconv.Itoa(sig))
 		}
 		withEnv := rnd.Chance(25)
